@@ -140,6 +140,18 @@ CHECKS = {
             "(computed from the final variances) is met within the 1% rule.",
             "'Always terminates' is only bounded: terminated within 200 passes / 30000 samples on every generated "
             "trajectory, a budget hit is inconclusive."),
+    "C07": ("3/C07",
+            "Hypothesis-generated path sets fed to the real standard engine through a scripted process; numpy "
+            "reference for mean, unbiased standard error and regression-adjusted samples",
+            "Exploration: for 1..200 generated paths (1-3 assets, identity/log representation, constant payoffs "
+            "included), scalar and vector strikes (payoff dimension 1..4), notionals, discount factors, 0..3 controls "
+            "and spot statistics on/off, the engine must consume each path exactly once, store the samples in "
+            "order, report price = df x mean(notional x payoff) and error = unbiased sample std / sqrt(n) per "
+            "component, and with controls the mean of Y - b*(X - price_X) with b* the sample regression coefficient "
+            "(adjusted samples compared one by one), equal to the raw mean when the given prices are the sample "
+            "means, with adjusted variance <= raw variance.",
+            "Control-variate comparisons only for covariance matrices with condition number < 1e4 (counted "
+            "otherwise); the near-singular guard of the library (b*=0) is mirrored."),
 }
 
 NOT_YET = "check not built yet in this session; will be claimed when its module exists"
